@@ -201,6 +201,9 @@ func fnKey(fn *ssa.Function) string {
 	s := o.String()
 	// Instances carry [T]; origins of generic methods print as (*pkg.T[T]).m
 	s = stripTypeArgs(s)
+	if a, ok := nameAlias[s]; ok {
+		return a
+	}
 	return s
 }
 
@@ -218,6 +221,9 @@ func stripTypeArgs(s string) string {
 				b.WriteRune(r)
 			}
 		}
+	}
+	if len(typeAlias) > 0 {
+		return canonTypes(b.String())
 	}
 	return b.String()
 }
@@ -338,7 +344,7 @@ func (c *Ctx) LookupType(pkg, name string) *types.Named {
 	if p == nil {
 		return nil
 	}
-	o := p.Types.Scope().Lookup(name)
+	o := p.Types.Scope().Lookup(currentTypeName(pkg, name))
 	if o == nil {
 		return nil
 	}
@@ -357,7 +363,7 @@ func (c *Ctx) FieldVar(pkg, typ, field string) *types.Var {
 		return nil
 	}
 	for i := 0; i < st.NumFields(); i++ {
-		if st.Field(i).Name() == field {
+		if fname(st.Field(i)) == field {
 			return st.Field(i)
 		}
 	}
